@@ -100,6 +100,23 @@ def rmw_sites(f, v, b):
     return out
 
 
+def scribble(x):
+    """change every bytearray leaf of a parsed result in place (the caller owns what a parser returned)"""
+    n = 0
+    if isinstance(x, bytearray):
+        for i in range(len(x)):
+            x[i] ^= 0xA5
+        x += b"\x00scribble"
+        return 1
+    if isinstance(x, dict):
+        for v in x.values():
+            n += scribble(v)
+    elif isinstance(x, list):
+        for v in x:
+            n += scribble(v)
+    return n
+
+
 def dig(d, path):
     for k in path:
         d = d[k]
@@ -160,6 +177,25 @@ def run(shard, ctx):
             ctx.fail("C06:%s.build_of_parse_raises.%s" % (f.name, type(e).__name__), "%s: marshall(unmarshall(b)) raised %s: %s" % (f.name, type(e).__name__, e), wit, exc=e)
             continue
         ctx.count("rebuilds")
+        # building twice from the very object the parser returned must give the same bytes (no growth of the caller's values)
+        try:
+            first = bytes(f.lib_build(parsed))
+            second = bytes(f.lib_build(parsed))
+            if first != second or first != bytes(rebuilt):
+                ctx.fail("C06:%s.build_not_repeatable" % f.name, "%s: marshalling the same parsed dictionary twice gives different bytes (%s)" % (f.name, diff_hex(second, first)), wit)
+        except Exception as e:  # noqa: BLE001
+            ctx.fail("C06:%s.build_of_parse_raises.%s" % (f.name, type(e).__name__), "second build raised", wit, exc=e)
+        # parsing the same response again after the caller edited an earlier result in place must not be influenced
+        try:
+            p_first = f.lib_decode(b, v)
+            if scribble(p_first):
+                p_again = f.lib_decode(b, v)
+                ctx.count("reparse_after_scribble")
+                if D.subset_diff(f.expect(v), p_again):
+                    pth = D.subset_diff(f.expect(v), p_again)[0][0]
+                    ctx.fail("C06:%s.parse_depends_on_earlier_result" % f.name, "%s: a second parse of the same bytes differs after the first result was edited in place (%s)" % (f.name, pth), wit)
+        except Exception as e:  # noqa: BLE001
+            ctx.fail("C06:%s.reparse_raises.%s" % (f.name, type(e).__name__), "re-parse raised", wit, exc=e)
         if bytes(rebuilt) != bytes(b):
             ctx.fail("C06:%s.build_of_parse" % f.name, "%s: marshall(unmarshall(b)) = %s..., b = %s..." % (f.name, diff_hex(rebuilt, b), bytes(b)[:24].hex()),
                      dict(wit, rebuilt=bytes(rebuilt)))
@@ -226,9 +262,17 @@ def run_designators(shard, ctx, rng):
                 ctx.fail("C06:designator.%s.parse_of_build%s" % (kind, p), "designator %s: %s %s" % (kind, p, msg), wit)
             try:
                 parsed = Inquiry.unmarshall_designator(dtype, bytearray(b))
-                rebuilt = Inquiry.marshall_designator(dtype, parsed)
+                rebuilt = bytes(Inquiry.marshall_designator(dtype, parsed))
                 if bytes(rebuilt) != bytes(b):
                     ctx.fail("C06:designator.%s.build_of_parse" % kind, "designator %s: %s" % (kind, diff_hex(rebuilt, b)), wit)
+                again = bytes(Inquiry.marshall_designator(dtype, parsed))
+                if again != rebuilt:
+                    ctx.fail("C06:designator.%s.build_not_repeatable" % kind, "designator %s: second build from the same dictionary differs (%s)" % (kind, diff_hex(again, rebuilt)), wit)
+                p1 = Inquiry.unmarshall_designator(dtype, bytearray(b))
+                if scribble(p1):
+                    p2 = Inquiry.unmarshall_designator(dtype, bytearray(b))
+                    if D.subset_diff(v, p2):
+                        ctx.fail("C06:designator.%s.parse_depends_on_earlier_result" % kind, "designator %s: re-parse differs after an earlier result was edited in place" % kind, wit)
             except Exception as e:  # noqa: BLE001
                 ctx.fail("C06:designator.%s.raises.%s" % (kind, type(e).__name__), "designator %s parse/build raised" % kind, wit, exc=e)
 
